@@ -246,6 +246,32 @@ func check(c Case) error {
 	if string(j1) != string(j2) {
 		return harness.Failf("C17/nondeterministic", "two conversions of equal input differ")
 	}
+	// the result belongs to the caller: writing into the property maps of one
+	// feature changes neither the other features nor later conversions
+	if len(fc2.Features) > 0 {
+		var each []string
+		for _, f := range fc2.Features {
+			b, _ := json.Marshal(f)
+			each = append(each, string(b))
+		}
+		for _, k := range []string{"tags", "meta"} {
+			switch m := fc2.Features[0].Properties[k].(type) {
+			case map[string]string:
+				m["~written-by-caller"] = "x"
+			case map[string]interface{}:
+				m["~written-by-caller"] = "x"
+			}
+		}
+		for i, f := range fc2.Features[1:] {
+			if b, _ := json.Marshal(f); string(b) != each[i+1] {
+				return harness.Failf("C17/features-share-memory", "writing into the tags/meta maps of feature 0 changed feature %d:\n was %s\n now %s", i+1, each[i+1], b)
+			}
+		}
+		fc3, _ := osmgeojson.Convert(c.build())
+		if j3, _ := json.Marshal(fc3); string(j3) != string(j1) {
+			return harness.Failf("C17/nondeterministic", "a conversion of equal input differs after the caller wrote into the property maps of an earlier result")
+		}
+	}
 
 	// ---- model lookups
 	nodeByID := map[int64]N{}
@@ -715,6 +741,10 @@ func genMeta(t *rapid.T) Meta {
 	}
 	if rapid.Bool().Draw(t, "mt") {
 		m.TS = int64(rapid.IntRange(1300000000, 1600000000).Draw(t, "ts"))
+		if rapid.IntRange(0, 5).Draw(t, "oddTS") == 0 {
+			// before and at the Unix epoch, the far future
+			m.TS = rapid.SampledFrom([]int64{-300000000, -1, 1, 253402300799}).Draw(t, "tsOdd")
+		}
 	}
 	if rapid.Bool().Draw(t, "mc") {
 		m.Changeset = int64(rapid.IntRange(1, 999).Draw(t, "cs"))
@@ -865,7 +895,7 @@ func genCase(t *rapid.T) Case {
 func TestConvert(t *testing.T) {
 	harness.Run(t, harness.Spec[Case]{
 		Name: "convert", N: 4000,
-		Rule:     "OSM data sets over a pool of up to 14 located nodes (present or missing; no / only-uninteresting / interesting tags), unlocated nodes, 0..5 ways (open, closed simple rings, area-tagged, short, through missing nodes, coordinates on way nodes or via node objects, shared nodes), 0..3 relations (route, multipolygon, boundary, restriction, site, untyped; way/node/relation members, present or absent), in a third of the cases a chained route (a node path cut into consecutive member ways, pieces reversed and tagged at random, members shuffled), every metadata field independently present; each case converted under all 16 option combinations; oracle = the statement's rules evaluated on the model (unique feature ids naming input elements, node interest rule, way line/area geometry from resolvable coordinates, route segment multiset, type/id/tags/meta/relations properties) + metamorphic option relations against the default conversion + determinism + input immutability; non-trivial = a way runs through an interestingly tagged node, or the data set has a relation",
+		Rule:     "OSM data sets over a pool of up to 14 located nodes (present or missing; no / only-uninteresting / interesting tags), unlocated nodes, 0..5 ways (open, closed simple rings, area-tagged, short, through missing nodes, coordinates on way nodes or via node objects, shared nodes), 0..3 relations (route, multipolygon, boundary, restriction, site, untyped; way/node/relation members, present or absent), in a third of the cases a chained route (a node path cut into consecutive member ways, pieces reversed and tagged at random, members shuffled), every metadata field independently present; each case converted under all 16 option combinations; oracle = the statement's rules evaluated on the model (unique feature ids naming input elements, node interest rule, way line/area geometry from resolvable coordinates, route segment multiset, type/id/tags/meta/relations properties) + metamorphic option relations against the default conversion + determinism (also after the caller wrote into the property maps of an earlier result, which must not touch the other features either) + input immutability; one timestamp in six lies before or at the Unix epoch or in year 9999; non-trivial = a way runs through an interestingly tagged node, or the data set has a relation",
 		Gen:      genCase,
 		Check:    check,
 		Classify: classify,
